@@ -1,9 +1,10 @@
 #!/bin/bash
 # Runs the repository's test suite with the guard (build tag verif) OFF and
-# compares the result with the stable_pass list of /root/.vp/BASELINE.json.
+# (optional arg: another checkout of the repository) and compares the result with the stable_pass list of /root/.vp/BASELINE.json.
 export GOFLAGS=-mod=mod GOPROXY=off GOSUMDB=off GOTOOLCHAIN=local
+R=${1:-/repo}
 out=$(mktemp)
-(cd /repo/go && go test -mod=mod -json -vet=off -count=1 -timeout 25m ./... ) > "$out" 2>/dev/null
+(cd $R/go && go test -mod=mod -json -vet=off -count=1 -timeout 25m ./... ) > "$out" 2>/dev/null
 python3 - "$out" <<'PY'
 import json,sys
 passed=set()
